@@ -31,13 +31,17 @@ DESCRIBE = {
     "bounds": "util.parse_region / Cooler.extent / bins().fetch on in- and out-of-bounds triples (s,e in -1..L+1, None; unknown "
               "chromosome): accepted or refused exactly as Lean `regionOfTriple` (= parseRegion_bounds), accepted values equal",
 }
-RULE = ("tables: EVERY valid segmentation of <=2 chromosomes of length <=6 (quick); thorough: every one of length <=7 plus "
-        "length-8 chromosomes paired with every partner of length <=3 for the file-based `table` check, and EVERY one of length <=8 "
-        "for `extent_unit`; plus uniform two-chromosome tables of lengths 7..10 x widths 2..5, seeded random 3-4 chromosome tables (uniform, variable, longer last bin, one-bin chromosomes) and "
-        "large-coordinate uniform tables (bin size up to 2^20, file coordinates < 2^31, unit level up to 2^40). Inside a table "
-        "every in-bounds (chrom,s,e) is queried (large tables: all bin edges +-1 and a seeded sample); DataFrame-returning "
-        "fetches and string forms run on every region of `full` tables (one chromosome, or both lengths <=3) and on every `stride`-th "
-        "region (stride 2 for lengths <=4, 12 for 5, else 24; the bare chromosome name always) of the others, where GenomeSegmentation.fetch and bedslice alternate on the remaining regions; non-trivial = some chromosome with >=2 bins; distinct by canonical JSON")
+RULE = ("tables for the file-based `table` check: quick = EVERY valid segmentation of <=2 chromosomes of length <=5, every "
+        "one-chromosome table of length 6 and a seeded tenth of the two-chromosome tables with a length-6 chromosome; thorough = "
+        "EVERY one of length <=6 plus every chromosome of length 7 (8) alone and paired in both orders with every partner of length "
+        "<=5 (<=3); `extent_unit` covers EVERY segmentation of <=2 chromosomes of length <=6 (quick) / <=8 (thorough); plus the "
+        "D1-regression corpus, uniform two-chromosome tables of lengths 7..10 x widths 2..5, seeded random 3-4 chromosome tables "
+        "(uniform, variable, longer last bin, one-bin chromosomes) and large-coordinate uniform tables (bin size up to 2^20, file "
+        "coordinates < 2^31; unit level up to 2^40). Inside a table EVERY in-bounds (chrom,s,e) goes through Cooler.extent (tuple, "
+        "and open-ended tuple when e = L) and GenomeSegmentation.fetch / bedslice (large tables: bin edges +-1 and a seeded sample "
+        "instead of every region); the string forms, Cooler.offset and the DataFrame-returning fetches run on every region of `full` "
+        "tables (one chromosome, or both lengths <=3) and on every `stride`-th region (2 for lengths <=4, 12 for 5, else 24; the "
+        "bare chromosome name always) of the others; non-trivial = some chromosome with >=2 bins; distinct by canonical JSON")
 EXHAUSTIVE = {"quick": True, "thorough": True}
 TRUSTED = ["numpy searchsorted(left/right) on a sorted array == countP (<) / countP (<=) (`ssLeft`/`ssRight`); h5py dataset "
            "slicing; pandas groupby().get_group / iloc keep row labels",
@@ -500,41 +504,43 @@ def cases(tier, rng):
         if k % 4 == 0:
             yield "bounds", {"bins": bins, "pixels": default_pixels(bins), "queries": bounds_queries(bins)}
     # exhaustive enumerations (no randomness consumed)
-    top_len = 7 if thorough else 6
+    # quick: the file-based check takes every table with lengths <= 5, every one-chromosome table of length 6 and a
+    # seeded tenth of the two-chromosome tables containing a length-6 chromosome; thorough takes them all
     k = 0
     for n in (1, 2):
-        for bins in all_segmentations(top_len, n):
+        for bins in all_segmentations(6, n):
             lens = chrom_lens(bins)
+            yield "extent_unit", {"bins": bins}
+            k += 1
+            if not (thorough or n == 1 or max(lens) <= 5 or rng.random() < 0.1):
+                continue
             full = n == 1 or max(lens) <= 3
             stride = 1 if full else (2 if max(lens) <= 4 else (12 if max(lens) == 5 else 24))
             yield "table", table_case(bins, stride=stride, salt=k, npairs=10 if full else 5)
-            yield "extent_unit", {"bins": bins}
-            k += 1
     # fixed-width family beyond the enumeration above: lengths 7..10 x partner lengths x widths (shorter / equal last bins)
     for L0 in (7, 8, 9, 10):
         for L1 in (1, 2, 3, 5, 7, 10):
             for b in (2, 3, 4, 5):
-                for sizes in ([L0, L1], [L1, L0]):
+                for sizes in (([L0, L1], [L1, L0]) if thorough else ([L0, L1],)):
                     bins = gen.uniform_bins(sizes, b)
                     yield "table", table_case(bins, stride=12, salt=k, kind="uniform-family", npairs=4)
                     yield "extent_unit", {"bins": bins}
                     k += 1
     if thorough:
-        eight = [gen.chrom_bins(0, ws) for ws in gen.compositions(8)]
-        small = [ws for L in range(1, 4) for ws in gen.compositions(L)]
-        for g in eight:
-            yield "table", table_case(g, stride=1, salt=k, npairs=10)
-            k += 1
-            ws8 = [b[2] - b[1] for b in g]
-            for ws in small:
-                for order in (0, 1):
-                    a, b = (ws8, ws) if order == 0 else (ws, ws8)
-                    bins = gen.chrom_bins(0, a) + gen.chrom_bins(1, b)
-                    yield "table", table_case(bins, stride=24, salt=k, npairs=5)
-                    k += 1
+        # every chromosome of length 7 (8) alone and paired, in both orders, with every partner of length <= 5 (<= 3)
+        for L, pmax in ((7, 5), (8, 3)):
+            partners = [ws for P in range(1, pmax + 1) for ws in gen.compositions(P)]
+            for wsL in gen.compositions(L):
+                yield "table", table_case(gen.chrom_bins(0, wsL), stride=1, salt=k, npairs=10)
+                k += 1
+                for ws in partners:
+                    for a, b in ((wsL, ws), (ws, wsL)):
+                        bins = gen.chrom_bins(0, a) + gen.chrom_bins(1, b)
+                        yield "table", table_case(bins, stride=24, salt=k, npairs=5)
+                        k += 1
         for n in (1, 2):
             for bins in all_segmentations(8, n):
-                if max(chrom_lens(bins)) == 8:
+                if max(chrom_lens(bins)) >= 7:
                     yield "extent_unit", {"bins": bins}
     # unit: float-division idealisation, virtual tables (only chrom_offset is read on the fixed path)
     for _ in range(400 if thorough else 80):
